@@ -805,4 +805,48 @@ func HashSetOfValueAppendWithMaxLoad
   ensures try wfP: ret1.flag == value.UNDEFINED_FLAG ==> wfProbe(vm, set.table)
   ensures try isMember: ret1.flag == value.UNDEFINED_FLAG ==> member(vm, set.table, val)
   ensures try fresh: ret1.flag == value.UNDEFINED_FLAG ==> (ret0 <==> !old(member(vm, set.table, val)))
+
+// ==== the bytecode builder (C29, C32) ====================================================
+// A function under construction: the line table covers exactly the instruction bytes.
+// Every builder operation appends bytes (never rewrites earlier ones) and keeps the table
+// in step, so an offset that was an instruction boundary stays one.
+spec fn wfFn(f *BytecodeFunction) bool = f != nil && wfLines(f.LineInfoList) && psum(f.LineInfoList, len(f.LineInfoList)) == len(f.Instructions)
+spec fn ins(f *BytecodeFunction, k int) int = elem(f.Instructions, k)
+
+func (*BytecodeFunction).AddInstruction
+  props C29 C32
+  requires wfFn(f)
+  // the operand bytes do not live in the spare capacity of the instruction array
+  requires disjoint: sliceptr(bytes) + len(bytes) <= sliceptr(f.Instructions) || sliceptr(f.Instructions) + cap(f.Instructions) <= sliceptr(bytes)
+  typing forall j int :: 0 <= j && j < len(f.LineInfoList) ==> allocated(elem(f.LineInfoList, j))
+  ensures wf: wfFn(f)
+  ensures len: len(f.Instructions) == old(len(f.Instructions)) + 1 + len(bytes)
+  ensures op: ins(f, old(len(f.Instructions))) == op
+  ensures operands: forall k int :: 0 <= k && k < len(bytes) ==> ins(f, old(len(f.Instructions)) + 1 + k) == old(elem(bytes, k))
+  ensures prefix: forall k int :: 0 <= k && k < old(len(f.Instructions)) ==> ins(f, k) == old(ins(f, k))
+  ensures lastline: len(f.LineInfoList) >= 1 && elem(f.LineInfoList, len(f.LineInfoList) - 1).LineNumber == lineNumber
+
+func (*BytecodeFunction).AddBytes
+  props C29 C32
+  requires wfFn(f) && len(f.LineInfoList) >= 1
+  ensures wf: wfFn(f) && len(f.LineInfoList) >= 1
+  ensures len: len(f.Instructions) == old(len(f.Instructions)) + len(bytes)
+  ensures operands: forall k int :: 0 <= k && k < len(bytes) ==> ins(f, old(len(f.Instructions)) + k) == old(elem(bytes, k))
+  ensures prefix: forall k int :: 0 <= k && k < old(len(f.Instructions)) ==> ins(f, k) == old(ins(f, k))
+
+func (*BytecodeFunction).AppendUint16
+  props C29 C32
+  requires wfFn(f) && len(f.LineInfoList) >= 1
+  ensures wf: wfFn(f) && len(f.LineInfoList) >= 1
+  ensures len: len(f.Instructions) == old(len(f.Instructions)) + 2
+  ensures be: ins(f, old(len(f.Instructions))) * 256 + ins(f, old(len(f.Instructions)) + 1) == n
+  ensures prefix: forall k int :: 0 <= k && k < old(len(f.Instructions)) ==> ins(f, k) == old(ins(f, k))
+
+func (*BytecodeFunction).AppendUint32
+  props C29 C32
+  requires wfFn(f) && len(f.LineInfoList) >= 1
+  ensures wf: wfFn(f) && len(f.LineInfoList) >= 1
+  ensures len: len(f.Instructions) == old(len(f.Instructions)) + 4
+  ensures be: ((ins(f, old(len(f.Instructions))) * 256 + ins(f, old(len(f.Instructions)) + 1)) * 256 + ins(f, old(len(f.Instructions)) + 2)) * 256 + ins(f, old(len(f.Instructions)) + 3) == n
+  ensures prefix: forall k int :: 0 <= k && k < old(len(f.Instructions)) ==> ins(f, k) == old(ins(f, k))
 @*/
